@@ -6,6 +6,8 @@ namespaces() is a bijection that agrees with store.prefix/store.namespace; every
 expands back to the IRI; all IRIs asked so far are re-asked after every binding change."""
 from __future__ import annotations
 
+import re
+
 from hypothesis import strategies as st
 
 from rdflib import Graph, Literal, URIRef
@@ -179,6 +181,12 @@ def run(case):
             r = sut(g.namespace_manager.compute_qname, u, False)
             if set((p, str(n)) for p, n in g.namespaces()) != before:
                 out.fail(("generate-false-binds",), where)
+                return out
+            # "no known prefix" is only true when no bound namespace leaves a plain local name of the IRI (namespaces that had a prefix
+            # earlier in the history must not get in the way)
+            fits = [(p, n) for p, n in before if str(u).startswith(n) and re.fullmatch(r"[A-Za-z_][A-Za-z0-9_]*", str(u)[len(n):])]
+            if is_err(r) and isinstance(r.exc, KeyError) and fits:
+                out.fail(("generate-false-raises-though-a-prefix-fits",), f"{where}: {r!r}; bound {sorted(fits)}")
                 return out
             r = sut(g.compute_qname, u)
             if is_err(r) and not isinstance(r.exc, (ValueError, KeyError)):
